@@ -92,7 +92,128 @@ fn gen_binary(rng: &mut Rng, tier: &str, emit: Emit, ops: &[&str], maxlen: usize
     }
 }
 
+
+// ---- small big-number helpers on little-endian bit vectors (only for building interesting operands) -------------
+fn bits_add(a: &[bool], b: &[bool], len: usize) -> Vec<bool> {
+    let mut out = vec![false; len];
+    let mut c = false;
+    for i in 0..len {
+        let x = *a.get(i).unwrap_or(&false);
+        let y = *b.get(i).unwrap_or(&false);
+        out[i] = x ^ y ^ c;
+        c = (x & y) | (x & c) | (y & c);
+    }
+    out
+}
+fn bits_mul(a: &[bool], b: &[bool], len: usize) -> Vec<bool> {
+    let mut acc = vec![false; len];
+    for (i, bi) in b.iter().enumerate() {
+        if *bi && i < len {
+            let mut sh = vec![false; i];
+            sh.extend_from_slice(a);
+            acc = bits_add(&acc, &sh, len);
+        }
+    }
+    acc
+}
+fn run(len: usize, lo: usize, hi: usize) -> Vec<bool> {
+    (0..len).map(|i| i >= lo && i < hi).collect()
+}
+fn single(len: usize, k: usize) -> Vec<bool> {
+    (0..len).map(|i| i == k).collect()
+}
+
+/// carries and borrows that ripple through a chosen number of full words and stop at a chosen place
+fn carry_lattice(rng: &mut Rng, tier: &str, emit: Emit) {
+    for lt in TYPES {
+        let w = lt.w;
+        let maxlen = lt.cap().unwrap_or(5 * w).min(330);
+        let mut lens = vec![maxlen, maxlen.saturating_sub(1), (2 * w + 3).min(maxlen), (3 * w).min(maxlen), (3 * w + 1).min(maxlen)];
+        lens.dedup();
+        for &n in &lens {
+            if n == 0 { continue; }
+            let marks: Vec<usize> = {
+                let mut m = vec![0usize, 1];
+                for k in 1..=(n / w + 1) { m.extend([k * w - 1, k * w, k * w + 1]); }
+                m.push(n - 1); m.push(n);
+                m.retain(|x| *x <= n); m.sort(); m.dedup(); m
+            };
+            let reps = if tier == "quick" { 10 } else { 60 };
+            for _ in 0..reps {
+                let lo = *rng.pick(&marks);
+                let hi = *rng.pick(&marks);
+                let (lo, hi) = (lo.min(hi), lo.max(hi));
+                // a = ones on [lo,hi), plus optional noise above; b = 1 << lo (carry ripples exactly to hi), or a's complement, or ones
+                let mut a = run(n, lo, hi);
+                if rng.chance(1, 3) { for i in (hi + 1).min(n)..n { a[i] = rng.chance(1, 2); } }
+                let bsel = rng.below(5);
+                let b: Vec<bool> = match bsel {
+                    0 => single(n.max(lo + 1), lo),
+                    1 => a.iter().map(|x| !x).collect(),
+                    2 => run(n, 0, n),
+                    3 => run(n + rng.below(70), lo, hi + rng.below(3)),
+                    _ => single(n + 1, hi.min(n)),
+                };
+                let rt = *rng.pick(TYPES);
+                let mut b = b; b.truncate(rt.cap().unwrap_or(400));
+                let l = vec_token(lt, &a, rng.below(3), rng.chance(1, 3));
+                let r = vec_token(&rt, &b, rng.below(3), rng.chance(1, 3));
+                for op in ["add", "sub", "mul"] {
+                    emit(line(op, &[&l, &r, "ar"]));
+                    emit(line(op, &[&r, &l, "ar"]));
+                }
+            }
+        }
+    }
+}
+
+/// dividends built as q*b + r with chosen shapes of q, b, r (exact multiples, power-of-two divisors, all-ones quotients,
+/// remainder b-1, divisor one bit longer / shorter than the dividend)
+fn div_lattice(rng: &mut Rng, tier: &str, emit: Emit) {
+    let reps = if tier == "quick" { 6 } else { 60 };
+    for lt in TYPES {
+        let n = lt.cap().unwrap_or(200).min(200);
+        for rt in TYPES {
+            for _ in 0..reps {
+                let bl = 1 + rng.below(n.min(rt.cap().unwrap_or(200)).max(1));
+                let ql = n.saturating_sub(bl).max(1).min(n);
+                let b: Vec<bool> = match rng.below(5) {
+                    0 => single(bl, bl - 1),
+                    1 => run(bl, 0, bl),
+                    2 => { let mut x = single(bl, bl - 1); x[0] = true; x }
+                    _ => { let mut x = gen_bits(rng, bl); x[bl - 1] = true; x }
+                };
+                let q: Vec<bool> = match rng.below(5) {
+                    0 => run(ql, 0, ql),
+                    1 => single(ql, ql - 1),
+                    2 => single(ql, rng.below(ql)),
+                    3 => { let mut x = run(ql, 0, ql); let k = rng.below(ql); x[k] = false; x }
+                    _ => gen_bits(rng, ql),
+                };
+                let r: Vec<bool> = match rng.below(4) {
+                    0 => vec![],
+                    1 => { // b - 1
+                        let ones = run(bl, 0, bl);
+                        bits_add(&b, &ones, bl)
+                    }
+                    2 => single(bl, 0),
+                    _ => { let mut x = gen_bits(rng, bl); x[bl - 1] = false; x }
+                };
+                let a = bits_add(&bits_mul(&q, &b, n), &r, n);
+                let mut bb = b.clone();
+                // the divisor may be much longer than its value
+                bb.resize((bl + rng.below(3) * 40).min(rt.cap().unwrap_or(300)), false);
+                let l = vec_token(lt, &a, rng.below(2), rng.chance(1, 3));
+                let rv = vec_token(rt, &bb, rng.below(2), rng.chance(1, 3));
+                emit(line("div", &[&l, &rv, "rr"]));
+                emit(line("rem", &[&l, &rv, "rr"]));
+            }
+        }
+    }
+}
+
 fn gen_c01(rng: &mut Rng, tier: &str, emit: Emit) {
+    carry_lattice(rng, tier, emit);
     gen_binary(rng, tier, emit, &["add", "sub", "mul"], MAXD, 12);
     // carry / borrow ripple through all-ones and all-zero words; u128 half-word lattice for wmul
     let pats: [u128; 9] = [0, 1, 2, u64::MAX as u128, (u64::MAX as u128) + 1, u128::MAX, u128::MAX - 1, 1u128 << 127, (1u128 << 64) - 2];
@@ -112,6 +233,7 @@ fn gen_c01(rng: &mut Rng, tier: &str, emit: Emit) {
 }
 
 fn gen_c02(rng: &mut Rng, tier: &str, emit: Emit) {
+    div_lattice(rng, tier, emit);
     gen_binary(rng, tier, emit, &["div", "rem"], 200, 8);
     // special divisors: 1, 2^k, the dividend itself ± 1, all ones, zero, empty; divisor longer than the
     // dividend's length and capacity
